@@ -3,7 +3,7 @@
 From Coq Require Import List ZArith Bool.
 Import ListNotations.
 From SAV.base Require Import Tree.
-From SAV.orm Require Import Loaders LoadersKeys.
+From SAV.orm Require Import Loaders LoadersKeys LoadersIdent.
 Open Scope Z_scope.
 
 (* ---------- shape of an emitted statement (compared with the shape parsed from the compiled SQL) ---------- *)
@@ -181,6 +181,36 @@ Definition run_keys (t : tree) : tree :=
   | _ => bad_input
   end.
 
+(* ---------- polymorphic many-to-one + pre-loaded identity map (family 78) ---------- *)
+Definition as_prow (t : tree) : option prow :=
+  match t with L [I i; c] => match as_nat c with Some c' => Some (mkP i c') | None => None end | _ => None end.
+Definition as_other (t : tree) : option (Z * option Z) := as_pair_of as_Z as_optZ t.
+Definition hier_of (ps : list (option Z)) : hierarchy :=
+  fun c => match nth c ps None with Some z => Some (Z.to_nat z) | None => None end.
+(* input L [I 78; L class parents (I parent | L []); L rows [id; class]; L others [id; fk]; I target class;
+            L ids already in the Session; L [I strategy code ...]; _] *)
+Definition run_ident (t : tree) : tree :=
+  match t with
+  | L [I _; th; trows; tothers; ttgt; tpre; tas; _] =>
+      match as_list_of as_optZ th, as_list_of as_prow trows, as_list_of as_other tothers, as_nat ttgt,
+            as_list_of as_Z tpre, as_list_of as_Z tas with
+      | Some ps, Some db, Some others, Some target, Some pre, Some codes =>
+          let isa := isa_fuel (hier_of ps) (length ps) in
+          let idmap := filter (fun r => memZ (pid r) pre) db in
+          let enc := fun (f : option Z -> option prow) =>
+            L (map (fun o => L [I (fst o); match f (snd o) with
+                                           | Some r => L [I (Z.of_nat (pcls r)); I (pid r)]
+                                           | None => L [] end]) others) in
+          let spec := enc (m2o_spec isa db target) in
+          let lazy := enc (m2o_lazy isa isa idmap db target) in
+          let one := fun c => if (c =? 0) || (c =? 3) then lazy else spec in
+          L [L (map (fun c => L [I (hash_tree (one c)); I 0]) codes);
+             match codes with c :: _ => if tree_eqb (one c) spec then L [] else one c | [] => L [] end]
+      | _, _, _, _, _, _ => bad_input
+      end
+  | _ => bad_input
+  end.
+
 (* input  L [L rows0; L steps; uquery; L assignments; L [I cmp_plan]; walk (ignored: names the mapped relationships)]
      row = L [I id; up; dn; I v] (up / dn: I fk or L [] for NULL)      step = L [I kind(0 Down,1 Up); I order; I level; L rows]
      uquery = L [I pred; I k; distinct; group; I order; limit; offset; jstep]   (jstep: L [] = first step of the path, or a step)
@@ -190,6 +220,7 @@ Definition run_keys (t : tree) : tree :=
 Definition run_case (t : tree) : tree :=
   match t with
   | L (I 77 :: _) => run_keys t
+  | L (I 78 :: _) => run_ident t
   | L [r0; ss; uq; asgs; L [cp]; _] =>
       match as_list_of as_row r0, as_list_of as_step ss, as_uquery uq,
             as_list_of (as_list_of as_strategy) asgs, as_bool cp with
